@@ -13,9 +13,15 @@ P3 = [251, 239, 64, 251, 90, 31, 241, 251, 198, 31, 242, 251, 147, 31, 253, 251,
 
 def history(rng, n):
     ops = [{"op": "new", "cfg": {"inr": [rng.randrange(256) for _ in range(4)], "temp": rng.randrange(0, 5001), "j1": rng.random() < 0.5}}]
+    # the constructors are entry points of "load" too: Machine::new(config) and Machine::new_with_program(config, program) are validated events
+    ops.append(ic.new_checked(rng, rng.choice([None, P1, P3, ic.random_image(rng, True, 80)])))
     for _ in range(n):
         r = rng.random()
-        if r < 0.12:
+        if r < 0.02:
+            ops.append(ic.new_checked(rng, rng.choice([None, P2, ic.random_image(rng, True, 239)[:240]])))
+        elif r < 0.04:
+            ops.append({"op": "load_raw", "image": rng.choice([P1, P2, [], ic.random_image(rng, False, 240)[:240], ic.random_image(rng, True, 17)])})
+        elif r < 0.12:
             img = rng.choice([P1, P2, P3, ic.random_image(rng, True, 80)])
             ops.append({"op": "load", "image": img, "ss": rng.choice([-1, 0, 16, 32, 48, 64]), "ps": rng.choice([-2, -1, 255, len(img)])})
         elif r < 0.4:
